@@ -168,6 +168,28 @@ theorem mem_usedBmp (texts : List (List Nat)) (x : Nat) :
         · subst h; omega
         · exact ⟨h, h2⟩
 
+/-- The used-character set of a font is the UNION over everything drawn in it — the graphics
+context's texts `gs` and the text context's texts `ts`, on every page: a character of either is listed. -/
+theorem C13_used_union (gs ts : List (List Nat)) (x : Nat) :
+    x ∈ usedBmp (gs ++ ts) ↔ x ∈ usedBmp gs ∨ x ∈ usedBmp ts := by
+  simp only [mem_usedBmp, List.flatten_append, List.mem_append]
+  constructor
+  · rintro ⟨h | h, h2⟩
+    · exact Or.inl ⟨h, h2⟩
+    · exact Or.inr ⟨h, h2⟩
+  · rintro (⟨h, h2⟩ | ⟨h, h2⟩)
+    · exact ⟨Or.inl h, h2⟩
+    · exact ⟨Or.inr h, h2⟩
+
+/-- … so a text drawn through either context is recovered whatever the other context drew. -/
+theorem C13_extract_show_both_contexts (s : List Nat) (gs ts : List (List Nat)) (hs : s ∈ gs ++ ts)
+    (h : ∀ c ∈ s, c < 0x10000 ∧ ¬ (0xD800 ≤ c ∧ c ≤ 0xDFFF)) (c : Nat) (hc : c ∈ s) :
+    lookupBlocks (toUnicodeBlocks (usedBmp (gs ++ ts))) c = some c := by
+  rw [C13_tounicode_lookup, if_pos]
+  rw [mem_usedBmp]
+  refine ⟨List.mem_flatten.mpr ⟨s, hs, hc⟩, ?_⟩
+  have := (h c hc).1; omega
+
 def IsBmpScalar (c : Nat) : Prop := c < 0x10000 ∧ ¬ (0xD800 ≤ c ∧ c ≤ 0xDFFF)
 
 theorem showCodes_bmp (s : List Nat) (h : ∀ c ∈ s, IsBmpScalar c) : showCodes s = s := by
